@@ -19,7 +19,7 @@ func (g *vcgen) loadFieldIn(s *State, base string, st types.Type, idx int) strin
 	}
 	name, ft := g.fieldArr(st, idx)
 	term := fmt.Sprintf("(select %s %s)", g.get(s, name), base)
-	if s.formal == nil {
+	if s.formal == nil && !strings.Contains(base, "|q.") {
 		// the heap is closed under the allocation counter of the same state: an object that exists holds only
 		// references to objects that exist
 		switch ft.Underlying().(type) {
@@ -155,7 +155,7 @@ func (g *vcgen) unboxIface(t types.Type, v string) string {
 	srt := g.s.sortOf(t)
 	bx := q("box." + strings.Trim(srt, "|"))
 	key := "unboxfact:" + u + fmt.Sprint(g.eng.TagOf(t))
-	if !g.declared[key] {
+	if !g.declared[key] && !strings.Contains(v, "|q.") {
 		g.declared[key] = true
 		g.emit(fmt.Sprintf("(assert (=> (= (itag %s) %d) (= (%s %s) %s)))", v, g.eng.TagOf(t), bx, u, ref))
 	}
